@@ -9,16 +9,19 @@ from .. import models as M, netbuild as NB
 from ..harness import JobCtx
 
 PROPERTY = 'C04'
-MIR = [('solver', 'on'), ('rapid_solve', 'on'), ('solution', 'on')]
+MIR = [('solver', 'on'), ('rapid_solve', 'on'), ('solution', 'on'), ('model', 'on'), ('rapid_time', 'on'), ('solver', 'off'), ('rapid_solve', 'off'), ('solution', 'off')]
 CRATES = ['solver', 'rapid_solve', 'solution']
 ASSUMPTIONS = ['decomposed: cached aggregates = recomputation is C09 (tour and schedule level) and C15 (rotation cycles); "evaluated on the schedule that is returned" is C16; here the indicators and the level structure',
                'the Schedule value is abstract: its cached fields are symbolic (two unserved figures < 2^31 each so that their u32 sum cannot overflow, i64 violation, costs < 2^62, 0..3 vehicles)']
-BOUNDS = {'quick': 'symbolic cached fields; 0..3 vehicles', 'thorough': 'same'}
+BOUNDS = {'quick': 'indicators: symbolic cached fields, 0..3 vehicles; aggregates: the schedule-level scripts of C09/C10 quick', 'thorough': 'aggregates: C09/C10 thorough'}
 OUTSIDE = 'whole-run histories (bounded in C09); floating-point / duration base values are not used by this objective'
 LEVELS = ['UnservedPassengersIndicator', 'MaintenanceViolationIndicator', 'VehicleCountIndicator', 'CostsIndicator']
 
+from . import schedops as SO
+from .schedops import job_script
 def jobs(tier, seed):
-    return [dict(name='indicators', func='job_indicators', kwargs={}), dict(name='objective_build', func='job_build', kwargs={})]
+    # own obligations + the schedule-level aggregate family of the shared exploration (cached figures = recomputation after every script)
+    return [dict(name='indicators', func='job_indicators', kwargs={}), dict(name='objective_build', func='job_build', kwargs={})] + SO.all_jobs(tier, seed, ['C09'])
 
 def abstract_schedule(ex, nveh):
     a = sym_int(ex, 'unserved_cap', 'u32', 0, 2**31 - 1); b = sym_int(ex, 'unserved_seat', 'u32', 0, 2**31 - 1)
@@ -30,8 +33,8 @@ def abstract_schedule(ex, nveh):
     swi = Agg('ScheduleWithInfo', None, [dict(schedule=sched, last_swap_info=Opaque('info'), print_text=StrVal('t'))[f] for f in STRUCTS['ScheduleWithInfo']])
     return swi, a.e, b.e, mv.e, costs.e
 
-def job_indicators(name):
-    J = JobCtx(name, CRATES); ex = J.ex
+def job_indicators(name, mode='on'):
+    J = JobCtx(name, CRATES, mode=mode); ex = J.ex
     fns = {}
     for k, v in ex.fns.items():
         if k.endswith('::evaluate') and 'solver/src/objective.rs' in k:
@@ -70,8 +73,8 @@ def read_objective(ex, obj):
     return levels
 def F_(v, sname, fname): return v.fields[STRUCTS[sname].index(fname)]
 
-def job_build(name):
-    J = JobCtx(name, CRATES); ex = J.ex
+def job_build(name, mode='on'):
+    J = JobCtx(name, CRATES, mode=mode); ex = J.ex
     cands = [v[0] for k, v in ex.fns.items() if k == 'objective::build']
     if len(cands) != 1: raise Unsupported('objective::build: %d candidates' % len(cands))
     def body():
@@ -86,4 +89,8 @@ def job_build(name):
         J.sample('objective::build -> %s' % levels)
     return J.result()
 
-def confirm(c): return False, 'no native scenario (structural obligation)'
+def confirm(c):
+    if 'native_confirmed' in c: return SO.confirm(c)
+    from ..harness import confirm_on_other_flavour
+    return confirm_on_other_flavour('mirsym.obligations.C04', c['job_func'], c.get('job_kwargs', {}), c['clause'])
+def validate(w): return SO.validate(w)
